@@ -259,5 +259,21 @@ fn evaluate_against_data_input__canary<'r>(
     mut write_output: &mut Writer,
 ) -> (res: Result<Status>)
 { assert(false); vstd::pervasive::unreached() }
+// ---- fn guard/src/commands/validate.rs::execute fragment #0 (R16)
+fn verif_fragment_execute_0(primary_in: Option<PathAwareValue>, path_value: PathAwareValue) -> (res: Result<Option<PathAwareValue>>)
+    ensures
+        // the first parameter file is taken as it is, nothing is dropped
+        primary_in is None ==> res == Ok::<Option<PathAwareValue>, Error>(Some(path_value)),
+        // every later file is MERGED into what was collected so far (PathAwareValue::merge: U-merge), never replaces it;
+        // a failing merge (duplicate key) fails the run
+        primary_in is Some ==> (res is Ok ==> res->Ok_0 == Some(merged(primary_in->Some_0, path_value))),
+{
+    let mut primary_path_value = primary_in;   // the accumulator of Validate::execute (`let mut primary_path_value: Option<PathAwareValue> = None;`)
+    primary_path_value = match primary_path_value {
+                                    Some(current) => Some(path_value.merge(current)?),
+                                    None => Some(path_value),
+                                };
+    Ok(primary_path_value)
+}
 } // verus!
 fn main() {}
